@@ -19,14 +19,13 @@ Import ListNotations.
 Local Open Scope N_scope.
 
 (* For control-first histories (never_lost: the control record is never written over a message's
-   index entry; negation = F31) and EVERY crash point that does not fall between the index write
-   and the data write of a message put (crash_torn = false; negation = F32) -- between API calls,
-   inside a control put, inside a get, and at three of the four call boundaries of a message put --
-   all four clauses hold, whatever is done afterwards ([after]: any reads and further stores). *)
+   index entry; negation = F31, not repaired) and EVERY crash point k -- between API calls, inside
+   a control put, inside a get, and at every call boundary inside a message put, including
+   between its data write and its index write (tree since a892b9a) -- all four clauses hold,
+   whatever is done afterwards ([after]: any reads and further stores). *)
 Theorem c27_atomic_partial : forall pre k after,
   ops_wf (pre ++ OReopen :: after) = true -> zero_free (pre ++ OReopen :: after) = true ->
   never_lost pre = true -> no_reopen after = true ->
-  crash_torn file_empty pre k = false ->
   c27_ok pre after (c27_result pre k after) = true.
 Proof. exact c27_atomic_partial_lemma. Qed.
 Print Assumptions c27_atomic_partial.
@@ -39,23 +38,6 @@ Theorem c27_between_ops_partial : forall pre k after,
   c27_ok pre after (c27_result pre k after) = true.
 Proof. exact c27_between_ops_partial_lemma. Qed.
 Print Assumptions c27_between_ops_partial.
-
-(* Inside a message put, between its index write and its data write (the one crash point the
-   theorem above excludes): what is still true right after the reopen.  Every OTHER sequence
-   number and the control record answer exactly as after the completed operations (so every
-   completed store is returned byte-identical), and the torn record itself is unreadable.
-   What is NOT true there is shown by c27_order_refuted. *)
-Theorem c27_torn_partial : forall pre k d done i,
-  forallb op_wf pre = true -> zero_free pre = true -> N.of_nat (length pre) < LIM ->
-  never_lost pre = true ->
-  crash_run file_empty pre k = Some (Crashed d done i) -> crash_torn file_empty pre k = true ->
-  let s := spec_state (firstn (length done) pre) in
-  exists st seq b, recover d = Some st /\ i = Some (OPut seq b) /\
-    (forall j, j <> seq -> file_step st (OGet j) = Some (st, snd (spec_step s (OGet j)))) /\
-    file_step st OCtlGet = Some (st, RCtl (s_ctl s)) /\
-    (b <> [] -> file_step st (OGet seq) = Some (st, RBytes None)).
-Proof. exact c27_torn_partial_lemma. Qed.
-Print Assumptions c27_torn_partial.
 
 (* F31 -- not never_lost: put(1,"MSG-ONE"); control put (2,1); put(2,"MSG-TWO"); all three
    return; no crash inside anything (k = 10 = all calls); reopen: get(1) fails.  The control
@@ -71,31 +53,37 @@ Theorem c27_control_refuted :
 Proof. exact c27_control_refuted_lemma. Qed.
 Print Assumptions c27_control_refuted.
 
-(* F32 -- crash_torn: control-first history, the process dies after the index write of
-   put(2,"BBBBBB"); reopen: get(2) fails, put(2,..) is refused (2 is "occupied"), and after
-   put(3,"CCCCCCCC") get(2) returns "CCCCCC" -- bytes that were never stored under 2. *)
-Theorem c27_order_refuted :
+(* F32, the code BEFORE a892b9a (repaired; index record written before the data): the process dies
+   after the third call of put(2,"BBBBBB"); after the reopen get(2) failed, put(2,..) was refused
+   (2 "occupied"), and after put(3,"CCCCCCCC") get(2) returned "CCCCCC" -- bytes never stored under
+   2.  The repaired order on the same input: 2 is absent, put(2,"DD") is accepted and returned. *)
+Theorem c27_order_orig_refuted :
   ops_wf (f32_pre ++ OReopen :: f32_after) = true /\ zero_free (f32_pre ++ OReopen :: f32_after) = true /\
   no_reopen f32_after = true /\ never_lost f32_pre = true /\
   crash_torn file_empty f32_pre 9 = true /\
-  c27_result f32_pre 9 f32_after =
+  c27_result_orig f32_pre 9 f32_after =
     Some (2%nat, [RBool true; RBool true],
           [RBytes None; RBool false; RBool true; RBytes (Some [67; 67; 67; 67; 67; 67])]) /\
-  c27_ok f32_pre f32_after (c27_result f32_pre 9 f32_after) = false.
-Proof. exact c27_order_refuted_lemma. Qed.
-Print Assumptions c27_order_refuted.
+  c27_ok f32_pre f32_after (c27_result_orig f32_pre 9 f32_after) = false /\
+  c27_result f32_pre 9 f32_after =
+    Some (2%nat, [RBool true; RBool true],
+          [RBytes None; RBool true; RBool true; RBytes (Some [68; 68])]).
+Proof. exact c27_order_orig_refuted_lemma. Qed.
+Print Assumptions c27_order_orig_refuted.
 
-(* Non-vacuity: a control-first history killed INSIDE its second control put (after the seek,
-   before the write) meets all hypotheses of c27_atomic_partial and is not a between-calls point:
-   the old control record (3,4), the completed message and the further stores are all there. *)
+(* Non-vacuity: a control-first history killed BETWEEN the data write and the index write of
+   put(2,[13;14]) meets all hypotheses of c27_atomic_partial and is not a between-calls point: the
+   orphan bytes are in the data file, 2 is absent, the last completed control record (5,6) and the
+   completed message are there, and the further stores are accepted and returned. *)
 Theorem c27_nonvacuous :
   ops_wf (nv_pre ++ OReopen :: nv_after) = true /\ zero_free (nv_pre ++ OReopen :: nv_after) = true /\
   never_lost nv_pre = true /\ no_reopen nv_after = true /\
-  crash_torn file_empty nv_pre 7 = false /\ crash_between file_empty nv_pre 7 = false /\
-  c27_result nv_pre 7 nv_after =
-    Some (2%nat, [RBool true; RBool true],
-          [RCtl (Some (3, 4)); RBytes (Some [10; 11; 12]); RBytes None; RBool true; RBool true;
-           RCtl (Some (7, 8)); RBytes (Some [14; 15])]).
+  crash_torn file_empty nv_pre 11 = true /\ crash_between file_empty nv_pre 11 = false /\
+  option_map (fun o => d_dat (o_disk o)) (c27_model nv_pre 11 nv_after) = Some [10; 11; 12; 13; 14] /\
+  c27_result nv_pre 11 nv_after =
+    Some (3%nat, [RBool true; RBool true; RBool true],
+          [RCtl (Some (5, 6)); RBytes (Some [10; 11; 12]); RBytes None; RBool true; RBool true;
+           RCtl (Some (7, 8)); RBytes (Some [15])]).
 Proof. exact c27_nonvacuous_lemma. Qed.
 Print Assumptions c27_nonvacuous.
 
